@@ -36,6 +36,19 @@ CLAIMS.update({
  "C17": arena_claim("Proved on the arena model: truthful hints never change a result (typed fast paths = generic layout path, via C11), the WithoutDealloc/WithoutShrink wrappers forward allocate/grow unchanged, typed and trait-object reserve agree whenever the request fits the current chunk; the deviation C17-a (trait-object reserve switches chunks otherwise) is proved by witness and reported as KNOWN-FINDING. All real entry points (Bump/BumpScope/&/&&/dyn, try_ and panicking twins) are tied to the single model operation by the correspondence.", "§7 C17"),
 })
 
+CLAIMS.update({
+ "C01": arena_claim("Proved on the arena model: a block carved by the fast path is aligned, inside the old free range of the current chunk, disjoint from everything on the allocated side and inside the content range (via C11); prepare/range results likewise; the ghost invariant LiveOK (every live block inside a chunk at or before the current one, on the allocated side, aligned, pairwise byte-disjoint) is preserved by allocate (fast path, next chunk, new chunk, refused), allocLayout, deallocate (all wrappers) and scope exit. Partial: LiveOK preservation for grow/shrink/commit/alloc_try_with/reset-family and the single inductive invariant over all operations are stated as targets. Tie: address-exact correspondence + interval/containment/alignment oracle on every live block after every operation.", "§7 C01"),
+ "C02": arena_claim("Proved on the arena model: write/copy/zero frame laws (only the addressed bytes change, memmove semantics, overlapping copy_nonoverlapping faults); allocation, deallocation, reserve, reset-family, reset_to and alignment changes never write a byte; grow, shrink, WithoutShrink::shrink, shrink_slice and both prepared commits carry over the first min(old,new) bytes and change no byte outside the new block, in every branch; zeroed allocation and the tail of zeroed grow read 0; allocate/deallocate/scope-exit keep the bytes of all live blocks. Partial: the live-bytes statement at stepCore level for grow/shrink/commit/alloc_try_with is a target. Tie: checksum correspondence + shadow-copy oracle (every live block re-read after every operation).", "§7 C02"),
+ "C10": arena_claim("Proved on the arena model: statistics identities (allocated + remaining = capacity ≤ size, count = number of chunks, size = capacity + count·header, zeros when claimed/unallocated), position inside the content range and header inside the block; the geometry invariant GeomInv (16 | size, header fits, position in range and minAlign-aligned, …) is preserved by every model function (tryCur, slow path, chunk creation, deallocate, grow, shrink, reserve, reset-family, reset_to, align_to, prepared commits), each with a no-fault theorem — in particular the slow path's unreachable_unchecked is unreachable (via C12) and copy_nonoverlapping never overlaps; chunk sizes strictly increase. Partial: no single stepCore-level induction (needs the C01 ghost invariant); any_stats is tied by correspondence/oracle only. Tie: stats/any_stats/chunk-list correspondence + identity oracles after every operation.", "§7 C10"),
+ "C18": arena_claim("Proved on the arena model: after align_to::<N> the position is a multiple of N (and of the old minimum alignment), inside the content range, moved by < N towards the free side; the align guard restores a multiple of the outer alignment; reset_to yields a multiple of the alignment in force and the exact checkpoint address when that is aligned (scoped_aligned exit restores the entry position exactly); the position is aligned after every allocation including chunk switches; with_settings panics iff (¬claimable ∧ claimed) ∨ (guaranteed-allocated ∧ unallocated). Tie: correspondence + position % N oracles at entry, after every operation and after exit, including unwinding.", "§7 C18"),
+})
+CLAIMS["C09"] = dict(engine="strs", technique="Lean 4 proofs over a hand-written byte-level string model (own UTF-8 decoder proved inverse to Lean core's encoder and equivalent to core's validity predicate); tie = correspondence harness against the real string types + std::string::String as direct oracle",
+    text="Proved for all strings, indices, characters and predicate oracles: every modelled operation (push, push_str, insert, insert_str, remove, pop, truncate, clear, retain incl. panicking predicate, drain, replace_range, extend_from_within, split_off, into_cstr/alloc_cstr*) keeps the contents valid UTF-8 whatever the outcome (ok/err/panic) and never faults; refines the List Char specification; panics iff the index is out of range or not on a character boundary (is_char_boundary as implemented proved equivalent to 'prefix is a whole number of characters'); C-string results are the text up to the first NUL plus exactly one NUL; validity lifts to all finite histories. Partial: from_utf8/utf16(_lossy) and formatting delegate to core and are compared with std only; growth policy of growable strings not modelled.",
+    ref="§7 C09", note=NOTE_MODEL)
+CLAIMS["C19"] = dict(engine="pool", technique="Lean 4 proofs (induction over all finite step sequences) over a hand-written pool state machine; tie = linearised replay of real multi-threaded runs (ticket hook inside the pool mutex) + direct oracles",
+    text="Proved for every finite sequence of get/put/forget/alloc/reset/drop steps by any number of guards: owned arenas are pairwise distinct and disjoint from the idle stack (exclusivity); an arena is created only on an empty idle stack, so created ≤ peak live guards and no arena is lost; arena contents change only through the current owner and only grow between resets (survive hand-over); reset/reset_to_start/drop hit every arena exactly once. Partial (stated in the evidence): atomicity of the Mutex critical sections and cross-thread visibility are runtime properties (trusted); schedules of real threads are sampled; the arena is abstracted to a tag list.",
+    ref="§7 C19", note=NOTE_MODEL + " Hook: --cfg bump_scope_verif adds a ticket counter inside BumpPool::lock (add-only).")
+
 NOT_YET = "check under construction in this round; will be claimed as soon as its theorem + correspondence + oracle run end-to-end (DESIGN.md §13)"
 
 def main():
@@ -62,11 +75,15 @@ def main():
         "hooks": {"guard": "bump_scope_verif",
                   "enable": "RUSTFLAGS='--cfg bump_scope_verif' (set by checks/lib.py when it builds /verif/harness, which depends on /repo by path)",
                   "baseline_off_cmd": "cd /repo && cargo test --workspace --no-fail-fast --offline",
-                  "source_commits": [], "add_only": True},
+                  "source_commits": ["88ec1f5"], "add_only": True},
         "engines": [
             {"name": "arena", "path": "harness/src/bin/arena.rs (+ src/arena_inc, src/scope_ops.rs, src/base.rs) + lean/BumpProof/Arena + lean/Driver/ArenaD.lean + checks/engines/arena.py",
              "serves_properties": ["C01", "C02", "C03", "C05", "C07", "C10", "C13", "C14", "C15", "C17", "C18"],
              "kind_free_text": "hand-written executable Lean model + Lean theorems + correspondence harness against the real crate + direct oracles"},
+            {"name": "strs", "path": "harness/src/bin/strs.rs + lean/BumpProof/Str + lean/Driver/StrsD.lean + checks/engines/strs.py", "serves_properties": ["C09"],
+             "kind_free_text": "hand-written byte-level string model + theorems + correspondence harness + std::String oracle"},
+            {"name": "pool", "path": "harness/src/bin/pool.rs + lean/BumpProof/Pool + lean/Driver/PoolD.lean + checks/engines/pool.py", "serves_properties": ["C19"],
+             "kind_free_text": "pool state machine + theorems + ticket-linearised replay of real threads + oracles"},
             {"name": "purefn", "path": "harness/src/bin/purefn.rs + lean/Driver/Pure.lean + translator/rs2lean.py", "serves_properties": ["C11", "C12"],
              "kind_free_text": "translator (Rust subset → Lean) + translation validation + differential oracle against wide-integer specs"},
         ],
